@@ -27,3 +27,9 @@
   (ite (<= k 0) 0 (ite (= (select d (+ o (- k 1))) c) 0 (+ (bsince d o (- k 1) c) 1)))))
 ;@lemma
 (define-fun bcount_bounds ((d (Array Int Int)) (o Int) (k Int) (c Int)) Bool (and (<= 0 (bcount d o k c)) (<= (bcount d o k c) (ite (<= k 0) 0 k)) (<= 0 (bsince d o k c)) (<= (bsince d o k c) (ite (<= k 0) 0 k))))
+; ---- JSON string decoding (external: bytes.unquoteBytes is a copy of encoding/json's decoder) ----
+; unq_ok / unq_len: success and decoded length of unquoting the quoted JSON string d[o..o+n)  (uninterpreted)
+(declare-fun unq_ok ((Array Int Int) Int Int) Bool)
+(declare-fun unq_len ((Array Int Int) Int Int) Int)
+; decimal rendering of a natural number by strconv.FormatUint / Itoa (uninterpreted, assumed canonical)
+(declare-fun decimal_of (Int) Str)
